@@ -31,6 +31,7 @@ func main() {
 	// descriptor depends on the number: fix the order so that the measured sizes are valid
 	gobSizes(newValue("A", 1, nil))
 	gobSizes(newValue("B", 1, nil))
+	gobSizes(&MsgC{Id: 1})
 	hx.Register("measure", measureMain)
 	hx.Register("run", runMain)
 	hx.Main()
@@ -49,6 +50,44 @@ type MsgB struct {
 	Id   int
 	Data []byte
 	Tag  string
+}
+
+// MsgC only ever travels in injected packets that a correct receiver must reject.
+type MsgC struct {
+	Id   int
+	Data []byte
+}
+
+// sliceWriter keeps the individual Writes (gob: one per gob message)
+type sliceWriter struct{ parts [][]byte }
+
+func (w *sliceWriter) Write(p []byte) (int, error) {
+	w.parts = append(w.parts, append([]byte{}, p...))
+	return len(p), nil
+}
+
+// badPacket builds a packet that no gob decoder accepts, whatever it has seen before:
+//
+//	dup     [descriptor of C][descriptor of C][value]  -> "duplicate type received", value left unread
+//	trunc   [descriptor of C][first half of the value] -> unexpected EOF (a later dup then fails at once)
+//	garbage bytes that are not a gob stream
+//
+// The value inside carries id and the usual pattern, so that it can be recognised if it ever comes out.
+func badPacket(kind string, id int) (pkt, payload []byte) {
+	payload = pattern(id, 24)
+	var w sliceWriter
+	if err := gob.NewEncoder(&w).Encode(&MsgC{Id: id, Data: payload}); err != nil || len(w.parts) < 2 {
+		panic("cannot build a bad packet")
+	}
+	desc, val := bytes.Join(w.parts[:len(w.parts)-1], nil), w.parts[len(w.parts)-1]
+	switch kind {
+	case "dup":
+		return bytes.Join([][]byte{desc, desc, val}, nil), payload
+	case "trunc":
+		return bytes.Join([][]byte{desc, val[:len(val)/2]}, nil), payload
+	default:
+		return []byte{0x07, 0xff, 0x82, 0x01, 0x02, 0xfe, 0xfd, 0x00, 0x13, 0x37}, payload
+	}
 }
 
 func newValue(typ string, id int, data []byte) any {
@@ -136,7 +175,8 @@ func measureMain(args []string) error {
 // ---- cases and events
 
 type op struct {
-	Op   string `json:"op"`             // send | recv
+	Op   string `json:"op"`             // send | inject | recv | recvall
+	Kind string `json:"kind,omitempty"` // inject: dup | trunc | garbage
 	Len  int    `json:"len"`            // raw: payload bytes
 	Val  int    `json:"val,omitempty"`  // gob: size of the value message to craft
 	Nfds int    `json:"nfds"`           // descriptors attached
@@ -157,8 +197,9 @@ type kase struct {
 
 // event is one logged operation; fields that do not apply to the operation are omitted.
 type event struct {
-	Op string `json:"op"` // send | recv | inspect | probe
-	J  int    `json:"j"`  // inspect: which delivered message (1 = first) the caller looks at now
+	Op   string `json:"op"`   // send | recv | inspect | probe
+	Kind string `json:"kind"` // inject: dup | trunc | garbage
+	J    int    `json:"j"`    // inspect: which delivered message (1 = first) the caller looks at now
 	// send
 	Id   int    `json:"id"`   // message id (1..)
 	Len  int    `json:"len"`  // payload bytes (gob: of the Data field)
@@ -403,7 +444,7 @@ func runCase(c kase, fs *files, own, forged []int) (*trace, error) {
 	// open the files this case attaches (before the descriptor baseline is taken)
 	id := 0
 	for _, o := range c.Ops {
-		if o.Op == "send" {
+		if o.Op == "send" || o.Op == "inject" {
 			id++
 			for j := 0; j < o.Nfds; j++ {
 				fs.get(((id*5+fileSeed)%nFiles + j) % nFiles)
@@ -482,6 +523,26 @@ func runCase(c kase, fs *files, own, forged []int) (*trace, error) {
 		}
 		ev := event{Op: o.Op, Cred: []int{}, Mids: []int{}, Rfidx: []int{}}
 		switch o.Op {
+		case "inject":
+			// a packet the receiving framed socket must reject, sent on the raw socket underneath
+			nextID++
+			ev.Id, ev.Nfds, ev.Kind, ev.Typ = nextID, o.Nfds, o.Kind, "C"
+			var m unixsocket.Msg
+			ev.F0 = (nextID*5 + fileSeed) % nFiles
+			for j := 0; j < o.Nfds; j++ {
+				m.Fds = append(m.Fds, fs.get((ev.F0+j)%nFiles))
+			}
+			pkt, payload := badPacket(o.Kind, nextID)
+			a.SetWriteDeadline(time.Now().Add(3 * time.Second))
+			n0 := fdCount()
+			serr := a.SendMsg(pkt, m)
+			ev.Fdd = fdCount() - n0
+			sent = append(sent, sentMsg{nextID, payload})
+			if serr != nil {
+				ev.Err, ev.Errc = serr.Error(), errClass(serr)
+			} else {
+				accepted++
+			}
 		case "send":
 			nextID++
 			ev.Id, ev.Nfds, ev.Typ = nextID, o.Nfds, o.Typ
